@@ -40,7 +40,8 @@ def random_ops(rng, n):
         elif r == 7:
             ops.append({"op": "write1017", "ms": rng.choice([0, 0, 1, 100, 65535, rng.randrange(65536)])})
         elif r in (8, 9):
-            ops.append({"op": "nmt", "state": rng.choice([0, 4, 5, 127]), "api": rng.random() < 0.6})
+            ops.append({"op": "nmt", "state": rng.choice([0, 4, 5, 127]), "api": rng.random() < 0.6,
+                        "target": rng.choice([None, 0])})
         elif r == 10:
             ops.append({"op": "ng_start", "period_us": per or 1000} if rng.random() < 0.7 else {"op": "ng_stop"})
         else:
